@@ -14,7 +14,7 @@ def _c01_weight(line):
 PROPS = {
     "C01": {
         "lean_modules": ["TemporalModel.Props.C01"],
-        "suites": ["c01"],
+        "suites": ["c01", "c11"],
         "weight": _c01_weight,
         "level_text": "Proof: the Gregorian day line is characterised by C01_anchor + C01_succ (all years, unbounded); C01_toDays / "
                       "C01_fromDays / C01_inverse prove the two coded Neri-Schneider kernels compute it and are mutually inverse on "
@@ -46,7 +46,7 @@ PROPS = {
         "level_note": "Trusted: Lean kernel (+propext, Classical.choice, Quot.sound), the hand model of rounding.rs/IsoTime::round/"
                       "round_instant, the harness and diff. The f64 instantiation of the rounder is not covered by this check.",
         "lean_modules": ["TemporalModel.Props.C07"],
-        "suites": ["c07"],
+        "suites": ["c07", "c05", "c11"],
         "spec_ops": {"pt_round": "pt_round_spec"},
         "why_difference_is_violation":
             "Theorem C07_round_eq_spec proves model = RoundNumberToIncrement (roundSpec) for all inputs; "
@@ -93,7 +93,7 @@ PROPS = {
     },
     "C09": {
         "lean_modules": ["TemporalModel.Props.C09"],
-        "suites": ["c09"],
+        "suites": ["c09", "api"],
         "level_text": "Proof: C09_valid_iff (a duration exists iff sign-uniform, |y|,|mo|,|w| < 2^32, exact total < 2^53 s), "
                       "C09_negated / C09_abs, C09_compare_total (compare = order of exact totals), C09_add_exact / C09_add_comm, "
                       "C09_round_total_time / _day (round without relativeTo = RoundNumberToIncrement of the exact 24-hour-day total), "
@@ -292,8 +292,9 @@ PROPS = {
                       "of 2038..9998 (located to the second by bisecting the provider's own daily offsets, then probed at that second "
                       "and its neighbours), instants with a sub-second part next to transitions (also before 1970, where floor and "
                       "truncation differ), the local images of those instants, warm-vs-fresh provider, histories of 40-130 distinct "
-                      "zones on one provider re-queried against fresh providers, and check_identifier on every name in mixed case "
-                      "plus non-names.",
+                      "zones on one provider re-queried against fresh providers, check_identifier on every name in mixed case "
+                      "plus non-names, and - through the provider - the default string, the wall-clock fields and the offset of a "
+                      "ZonedDateTime and the zoned string of an Instant at those instants (sub-second parts included).",
         "level_note": "Trusted: Lean kernel (+propext, Classical.choice, Quot.sound); the harness's TZif reader and the model's "
                       "POSIX-TZ parser (two independent readers against the crate's tzif/combine parsers); Spec/Gregorian.lean for "
                       "dates; 'IANA names' = the TZif files of the zoneinfo tree minus localtime, posixrules, Factory. Leap-second "
@@ -359,7 +360,7 @@ PROPS = {
     },
     "C17": {
         "lean_modules": ["TemporalModel.Props.C17"],
-        "suites": ["c17", "api"],
+        "suites": ["c17", "api", "c18"],
         "level_text": "Proof: C17_date_with_spec (PlainDate::with = the reference merge for every receiver, all 2^k subsets of "
                       "supplied fields, every field value, both overflow modes: supplied field else receiver's; month/monthCode "
                       "agreement; clamp under constrain, RangeError under reject), C17_time_with_spec, C17_date_with_self / "
@@ -522,7 +523,7 @@ PROPS = {
     },
     "C18": {
         "lean_modules": ["TemporalModel.Props.C18"],
-        "suites": ["c18"],
+        "suites": ["c18", "c11"],
         "level_text": "Proof: C18_canonical_from_fields / C18_canonical_routes (every non-constructor route - fields, with, from a date, "
                       "arithmetic - yields hidden day 1), C18_add_from_first_of_month (add of whole years and months is plain-date "
                       "addition from day 1 of the receiver's month, whatever hidden day it carries, then the year and month of the "
